@@ -76,6 +76,7 @@ func (m *omap) find(i *interpreter, k value) int {
 }
 
 func (m *omap) lookup(i *interpreter, k value) (value, bool) {
+	i.raceMap(m, "mread")
 	j := m.find(i, k)
 	if j < 0 {
 		return nil, false
@@ -87,6 +88,7 @@ func (m *omap) insert(i *interpreter, k, v value) {
 	if m == nil {
 		panic(runtimePanic("assignment to entry in nil map"))
 	}
+	i.raceMap(m, "mwrite")
 	if j := m.find(i, k); j >= 0 {
 		m.vals[j] = v
 		return
@@ -108,6 +110,7 @@ func (m *omap) delete(i *interpreter, k value) {
 	if m == nil {
 		return
 	}
+	i.raceMap(m, "mwrite")
 	if j := m.find(i, k); j >= 0 {
 		m.alive[j] = false
 		m.vals[j] = nil
@@ -126,6 +129,7 @@ func (m *omap) len() int {
 // entry arrays at the time the range started), then any entries appended
 // during the iteration.
 type omapIter struct {
+	i    *interpreter // set when accesses are recorded for race prediction
 	m    *omap
 	perm []int
 	pos  int
@@ -133,6 +137,9 @@ type omapIter struct {
 }
 
 func (it *omapIter) next() tuple {
+	if it.i != nil {
+		it.i.raceMap(it.m, "mread")
+	}
 	m := it.m
 	if m == nil {
 		return tuple{false, nil, nil}
